@@ -58,7 +58,7 @@ impl<T: Flavor> Pool<T> {
 /// Values reached through a further API sequence from a parsed value (re-built, qualifiers removed
 /// one by one / all at once / through the typed accessor, version set and unset): they must be
 /// indistinguishable from values that print the same and were obtained directly.
-const DERIVATIONS: [&str; 6] = ["rebuild", "without_qualifiers", "without_first_qualifier", "without_last_qualifier", "typed_checksum_none", "version_set_and_unset"];
+const DERIVATIONS: [&str; 8] = ["rebuild", "without_qualifiers", "without_first_qualifier", "without_last_qualifier", "typed_checksum_none", "version_set_and_unset", "name_long_then_restored", "qualifier_long_then_restored"];
 
 fn derive<T: Flavor>(p: &GenericPurl<T>, op: &str) -> Option<GenericPurl<T>> {
     use purl::qualifiers::well_known::Checksum;
@@ -85,6 +85,16 @@ fn derive<T: Flavor>(p: &GenericPurl<T>, op: &str) -> Option<GenericPurl<T>> {
                 return None;
             }
             b.with_version("9").without_version()
+        },
+        // a field grown beyond the 23-byte inline buffer and then set back to what it was
+        "name_long_then_restored" => {
+            let name = p.name().to_owned();
+            b.with_name("a-name-that-is-much-longer-than-the-inline-buffer").with_name(name)
+        },
+        "qualifier_long_then_restored" => {
+            let (k, v) = p.qualifiers().iter().next().map(|(k, v)| (k.as_str().to_owned(), v.to_owned()))?;
+            let b = b.with_qualifier(k.to_ascii_uppercase(), "a-value-that-is-much-longer-than-the-inline-buffer").ok()?;
+            b.with_qualifier(k, v).ok()?
         },
         _ => return None,
     };
